@@ -914,3 +914,120 @@ def rule_erase_arith(ctx, crate, rule="R-ERASE-ARITH"):
                 n += 1
                 ctx.check(okr, rule, "clear-exactly-rows", x.name, c.loc(), "the clear loop runs over 0..previous rows", "the clear loop does not cover exactly the previous rows", cfg)
     ctx.floor(rule, n, 2, cfg, "erase-phase arithmetic sites")
+
+
+# ---- bar rows are exactly the '\n'-separated segments (C01 / C10 / C19) ---------------------------------------
+
+SPLIT_NL = r"core::str::<impl str>::split"
+LOSSY_SPLIT = (r"core::str::<impl str>::(lines|split_terminator|split_whitespace|split_ascii_whitespace|split_inclusive|splitn|rsplitn|rsplit|rsplit_terminator|trim|trim_end|trim_start|trim_matches|trim_end_matches|trim_start_matches|strip_suffix|strip_prefix)",)
+
+
+def _is_nl(op):
+    v = const_val(op)
+    return v in ("\n", "\\n")
+
+
+def _splits_on_newline(b, sl):
+    """split calls in the slice whose separator is the constant '\\n'."""
+    return [c for c in sl.calls if c.matches(SPLIT_NL) and len(c.args) >= 2 and _is_nl(c.args[1])]
+
+
+def rule_bar_rows_split(ctx, crate, rule="R-BAR-ROWS-SPLIT"):
+    """The paint routine states: "None of those lines contain newlines" (wrapped_height and the erase count measure a
+    line as one logical row sequence). Every LineType::Bar therefore holds either one segment of `split('\\n')` over the
+    rendered text — not of a splitter that drops trailing/blank segments such as `lines()` — or the whole text under a
+    test that it contains no line break."""
+    cfg = crate.config
+    cons = [x for x in K.constructions(crate, LINETYPE, variant="Bar") if x[0].file not in K.TEST_DOUBLE_FILES
+            and not ((x[0].impl or {}).get("trait") or "").startswith("std::clone::Clone")]      # a clone copies an existing row
+    ctx.floor(rule, len(cons), 2, cfg, "LineType::Bar constructions")
+    for k, (b, i, j, s) in enumerate(cons):
+        op = s["rv"]["ops"][0]
+        sl = b.slice(op, at=i)
+        key = "bar-row#%d" % sum(1 for x in cons[:k] if x[0].name == b.name)
+        loc = "%s:%d" % (b.file, s.get("line", 0))
+        lossy = [c.path for c in sl.calls if c.matches(*LOSSY_SPLIT)]
+        splits = _splits_on_newline(b, sl)
+        src_sl, src_b = sl, b
+        if b.kind == "Closure" and not splits and not lossy:
+            # `.map(|line| LineType::Bar(line.to_string()))`: the item comes from the iterator the closure is applied to
+            parent = crate.bodies.get(K.owner_fn(crate, b))
+            if parent is not None:
+                for pi, pj, ps in parent.assigns():
+                    if ps["rv"]["k"] == "agg" and ps["rv"].get("ak") == "closure" and ps["rv"].get("def") == b.name:
+                        cl = ps["lhs"]["l"]
+                        for c in parent.calls():
+                            if any(operand_local(a) == cl for a in c.args[1:]) and c.args:
+                                rsl = parent.slice_args(c, [0])
+                                lossy += [x.path for x in rsl.calls if x.matches(*LOSSY_SPLIT)]
+                                splits += _splits_on_newline(parent, rsl)
+        if lossy:
+            ctx.bad(rule, key, b.name, loc, "a bar row is produced by %s, which drops trailing / blank segments or line-break characters: "
+                    "the stored rows no longer correspond to the line breaks of the rendered text" % lossy[0], cfg)
+            continue
+        if splits:
+            ctx.ok(rule, key, b.name, loc, "the row is one segment of split('\\n') over the rendered text", cfg)
+            continue
+        # the whole text as one row: needs a no-line-break test on the same string
+        root_l = operand_local(op)
+        roots = {root_l} | {tl for tl, tp in b.ref_origins().get(root_l, ())}
+        for d in b.defs().get(root_l, ()):
+            if d["kind"] == "assign" and d["rv"]["k"] == "use":
+                roots.add(operand_local(d["rv"]["op"]))
+        guarded = None
+        for sb, t in b.switches():
+            if t["op"]["k"] not in ("copy", "move"):
+                continue
+            l = operand_local(t["op"])
+            ds = [d for d in b.defs().get(l, ()) if d["kind"] in ("assign", "call")]
+            if len(ds) != 1:
+                continue
+            d = ds[0]
+            zero = [tb for v, tb in t["targets"] if v == 0]
+            if d["kind"] == "assign" and d["rv"]["k"] == "bin" and d["rv"]["op"] == "Eq":
+                # len(first split segment) == len(whole)
+                sa, sb_ = b.slice(d["rv"]["a"], at=sb), b.slice(d["rv"]["b"], at=sb)
+                for x, y in ((sa, sb_), (sb_, sa)):
+                    seg = _splits_on_newline(b, x) and x.has_call(r"core::str::<impl str>::len")
+                    whole = y.has_call(r"std::string::String::len", r"core::str::<impl str>::len") and not _splits_on_newline(b, y) and (roots & y.locals)
+                    if seg and whole and b.edge_dominates((sb, t["otherwise"]), i):
+                        guarded = "first split('\\n') segment is as long as the whole text"
+            elif d["kind"] == "call" and d["call"].matches(r"core::str::<impl str>::contains") and len(d["call"].args) >= 2 and _is_nl(d["call"].args[1]):
+                if zero and b.edge_dominates((sb, zero[0]), i) and (roots & b.slice_args(d["call"], [0]).locals):
+                    guarded = "contains('\\n') is false"
+            elif d["kind"] == "call" and d["call"].matches(r"std::option::Option::<T>::is_(none|some)"):
+                fsl = b.slice_args(d["call"], [0])
+                finds = [c for c in fsl.calls if c.matches(r"core::str::<impl str>::find") and len(c.args) >= 2 and _is_nl(c.args[1])]
+                if finds and (roots & fsl.locals):
+                    none_edge = (sb, t["otherwise"]) if K.meth(d["call"].path) == "is_none" else ((sb, zero[0]) if zero else None)
+                    if none_edge and b.edge_dominates(none_edge, i):
+                        guarded = "find('\\n') is None"
+        ctx.check(guarded is not None, rule, key, b.name, loc, "the whole text is one row only where %s" % guarded,
+                  "a whole rendered string is stored as one bar row without a test that it contains no line break "
+                  "(a '\\n' inside a row makes the painted height differ from the counted height)", cfg)
+
+
+def rule_line_kinds(ctx, crate, rule="R-LINE-KIND-OWNERS"):
+    """Only `LineType::Bar` rows are counted by the paint routine and erased by the next frame; `Text`/`Empty` are
+    println output (painted once, moved to the orphan list of a MultiProgress). So the bar renderer builds Bar rows only,
+    and Text/Empty rows are built only on the println paths."""
+    cfg = crate.config
+    g = K.callgraph(crate)
+    render = K.cg_reach(g, [n for n in crate.bodies if re.fullmatch(r"style::ProgressStyle::format_state", n)])
+    n = 0
+    for (b, i, j, s) in K.constructions(crate, LINETYPE):
+        if b.file in K.TEST_DOUBLE_FILES or ((b.impl or {}).get("trait") or "").startswith("std::clone::Clone"):
+            continue
+        n += 1
+        v = s["rv"]["variant"]
+        owner = K.owner_fn(crate, b)
+        loc = "%s:%d" % (b.file, s.get("line", 0))
+        if b.name in render or owner in render:
+            ctx.check(v == "Bar", rule, "renderer-builds:%s" % v, b.name, loc, "the bar renderer produces LineType::Bar rows",
+                      "the bar renderer produces a LineType::%s row: it is painted with the bar but neither counted nor erased with it "
+                      "(and a MultiProgress moves it to the permanent text above the bars)" % v, cfg)
+        else:
+            ok = v in ("Text", "Empty") and K.meth(owner) == "println"
+            ctx.check(ok, rule, "println-builds:%s" % v, b.name, loc, "println output is built as Text/Empty rows",
+                      "a LineType::%s row is built in %s (outside the bar renderer and the println paths)" % (v, owner), cfg)
+    ctx.floor(rule, n, 5, cfg, "LineType constructions")
